@@ -27,7 +27,7 @@ LOG_ALL = ['action', 'reward', 'probability']
 
 def shapes(tier):
     """Action-set sequences (one action-set name per interaction), simplest first."""
-    names = list(M.ACTSETS)
+    names = list(M.BASE_ACTSETS)
     out = [[a] for a in names]                                                    # n = 1
     out += [[a, names[(i + 1) % 5]] for i, a in enumerate(names)]                 # n = 2, changing
     out += [[a, names[(i + 1) % 5], names[(i + 2) % 5]] for i, a in enumerate(names)]   # n = 3, rotating
@@ -55,6 +55,24 @@ def environments(tier):
                     if tier == 'quick' and not (ctx == 'dense' or (rwd == 'list' and acts in (['int'], ['str', 'tup'], ['bin', 'int', 'str']))): continue
                     d = emit({'n': len(acts), 'ctx': ctx, 'acts': acts, 'rwd': rwd, 'log': list(LOG_ALL), 'extras': 1, 'batch': batch})
                     if d: yield d
+    # F3: recurrence - every action-set sequence in {A,B}^3 (A,A,A .. A,B,A .. B,B,B) for pairs of sets that do / do not contain 0 or 1
+    # (ints and floats) and pairs of other kinds, with contexts that are distinct or return to an earlier value (x0,x1,x0 / x0,x0,x1):
+    # state kept between interactions (caches keyed on the previous action set / context) must not leak into a later interaction.
+    # thorough adds all reward kinds, more pairs and {A,B}^4.
+    pairs = [('zo3', 'hi3'), ('bin', 'int'), ('flt', 'fhi'), ('zo3', 'flt'), ('str', 'map')]
+    if tier != 'quick': pairs += [('hi3', 'fhi'), ('bin', 'tup'), ('zo3', 'bin'), ('flt', 'str')]
+    for batch in (0, 2):
+        for a, b in pairs:
+            for n in ((3,) if tier == 'quick' or (a, b) not in (('zo3', 'hi3'), ('bin', 'int'), ('flt', 'fhi')) else (3, 4)):
+                for acts in itertools.product((a, b), repeat=n):
+                    for cseq in (None, [0, 1, 0, 1][:n], [0, 0, 1, 1][:n]):
+                        for ctx in (('dense',) if tier == 'quick' else ('dense', 'sparse')):
+                            for rwd in (('list',) if tier == 'quick' else M.RWD_KINDS):
+                                if cseq is not None and (n == 4 or rwd not in ('list', 'binary')): continue
+                                d = {'n': n, 'ctx': ctx, 'acts': list(acts), 'rwd': rwd, 'log': list(LOG_ALL), 'extras': 1, 'batch': batch}
+                                if cseq is not None: d['cseq'] = cseq
+                                d = emit(d)
+                                if d: yield d
     # F2: field presence - which of actions / rewards / logged fields / extras exist
     act_opts = [['int', 'str'], None] if tier == 'quick' else [['int', 'str'], ['bin', 'tup', 'map'], None]
     for batch in (0, 2):
